@@ -165,9 +165,11 @@ class Prog:
                 # several erroneous subterms of one arithmetic expression: any of their errors is admissible
                 alts = [ball] + [terms.from_tla(t) for t in self.vec.get("balts", [])]
                 if not (gb[0] == 'c' and gb[1] == 'error' and len(gb[2]) == 2 and
-                        any(terms.variant(a[2][0], gb[2][0]) for a in alts)):
+                        any(terms.variant(blank_error_terms(a[2][0]), blank_error_terms(gb[2][0])) for a in alts)):
+                    # (an error term caught earlier and carried inside the Formal, e.g. as a culprit, keeps only its error/2 shell:
+                    # its context is implementation defined)
                     return "expected error %s, got %s" % (" or ".join(terms.show(a[2][0]) for a in alts), terms.show(gb))
-            elif not terms.variant(ball, gb):
+            elif not terms.variant(blank_error_terms(ball), blank_error_terms(gb)):
                 return "expected ball %s, got %s" % (terms.show(ball), terms.show(gb))
         return None
 
